@@ -106,7 +106,7 @@ fn c07_k_lunar_day_pillar_args() {
 
 
 // ---- C09: hour pillar: the (stem, branch) indices fed to the name lookup, for all 60 day pillars x 24 hours -------------
-static mut SYM_DAY_PILLAR: isize = 0;
+static mut SYM_DAY_PILLAR: isize = -7601; // non-zero start: see the note on statics in k_sixtycycle.rs
 fn stub_day_pillar(_d: &LunarDay) -> SixtyCycle { cheap_cycle(unsafe { SYM_DAY_PILLAR }) }
 #[kani::proof]
 #[kani::unwind(61)]
@@ -150,7 +150,7 @@ fn c08_k_month_pillar_args() {
 
 // C13: construction accepts exactly the components inside the container. LunarMonth::from_ym (cache + astronomy) is
 // replaced by an arbitrary well-formed month of the requested (year, month) so that the body of LunarDay::new is what is proved.
-static mut REC_DC: usize = 0;
+static mut REC_DC: usize = 7602;
 fn stub_month_from_ym(y: isize, m: isize) -> LunarMonth {
   let dc: usize = kani::any(); let idx: usize = kani::any(); let first: i64 = kani::any();
   kani::assume(dc >= 29 && dc <= 30 && idx <= 12 && first >= 1721000 && first <= 5374000);
@@ -173,7 +173,7 @@ fn c13_k_lunar_day_accept() {
   kani::cover!(d == 30 && dc == 29, "lunar_day_accept reachable (day 30 of a short month refused)");
 }
 
-static mut REC_YMD: (isize, isize, usize) = (0, 0, 0);
+static mut REC_YMD: (isize, isize, usize) = (-7603, -7604, 7605);
 fn stub_day_from_ymd(y: isize, m: isize, d: usize) -> LunarDay {
   unsafe { REC_YMD = (y, m, d); }
   LunarDay { month: mk_month(y, m, 30, 0, 2400000), day: d, solar_day: RefCell::new(None), sixty_cycle_day: RefCell::new(None) }
@@ -196,13 +196,13 @@ fn c13_k_lunar_hour_accept() {
 
 // C13: LunarDay::get_hours asks for exactly the 13 hour slots 0:00, 1:00, 3:00, ..., 23:00 of its own (year, month, day)
 static mut REC_HOURS: [usize; 16] = [99; 16];
-static mut REC_HN: usize = 0;
-static mut REC_HBAD: bool = false;
+static mut REC_HN: usize = 7606;
+static mut REC_HBAD: usize = 7607;
 fn stub_hour_from_ymd_hms(y: isize, m: isize, d: usize, h: usize, mi: usize, s: usize) -> LunarHour {
   unsafe {
     if REC_HN < 16 { REC_HOURS[REC_HN] = h; }
     REC_HN += 1;
-    if (y, m, d) != REC_YMD || mi != 0 || s != 0 { REC_HBAD = true; }
+    if (y, m, d) != REC_YMD || mi != 0 || s != 0 { REC_HBAD = 1; }
   }
   LunarHour { day: LunarDay { month: mk_month(y, m, 30, 0, 2400000), day: d, solar_day: RefCell::new(None), sixty_cycle_day: RefCell::new(None) }, hour: h, minute: mi, second: s, solar_time: RefCell::new(None), sixty_cycle_hour: RefCell::new(None) }
 }
@@ -212,7 +212,7 @@ fn stub_hour_from_ymd_hms(y: isize, m: isize, d: usize, h: usize, mi: usize, s: 
 #[kani::stub(LunarHour::from_ymd_hms, stub_hour_from_ymd_hms)]
 fn c13_k_lunar_day_hours() {
   let d = any_lunar_day();
-  unsafe { REC_YMD = (d.get_year(), d.get_month(), d.get_day()); }
+  unsafe { REC_YMD = (d.get_year(), d.get_month(), d.get_day()); REC_HN = 0; REC_HBAD = 0; }
   let l = d.get_hours();
   let want: [usize; 13] = [0, 1, 3, 5, 7, 9, 11, 13, 15, 17, 19, 21, 23];
   assert!(l.len() == 13 && unsafe { REC_HN } == 13, "13 hour slots per lunar day");
@@ -222,13 +222,13 @@ fn c13_k_lunar_day_hours() {
     i += 1;
   }
   core::mem::forget(l);
-  assert!(!unsafe { REC_HBAD }, "every slot belongs to this day (same year, month, day; minute and second 0)");
+  assert!(unsafe { REC_HBAD } == 0, "every slot belongs to this day (same year, month, day; minute and second 0)");
   kani::cover!(d.get_day() == 30, "lunar_day_hours reachable");
 }
 
 // C11/C09: LunarHour::next(n) carries whole days exactly: hour + 2n == 24 * days + hour', 0 <= hour' < 24, where `days` is what
 // it hands to LunarDay::next and hour' what it hands to the constructor (both replaced by recording stubs).
-static mut REC_DAYS: isize = 0;
+static mut REC_DAYS: isize = -7608;
 static mut REC_H: usize = 99;
 fn stub_lunar_day_next(d: &LunarDay, n: isize) -> LunarDay { unsafe { REC_DAYS = n; } d.clone() }
 fn stub_hour_ctor(y: isize, m: isize, d: usize, h: usize, mi: usize, s: usize) -> LunarHour {
@@ -250,3 +250,9 @@ fn c11_k_lunar_hour_carry() {
   core::mem::forget(r); core::mem::forget(lh);
   kani::cover!(n == -13 && h == 1, "lunar_hour_carry reachable (backward across midnight)");
 }
+
+
+// constructors for harnesses in other modules (private fields)
+pub fn mk_month_pub(y: isize, m: isize) -> LunarMonth { mk_month(y, m, 30, 0, 2400000) }
+pub fn mk_lunar_day(y: isize, m: isize, d: usize) -> LunarDay { LunarDay { month: mk_month(y, m, 30, 0, 2400000), day: d, solar_day: RefCell::new(None), sixty_cycle_day: RefCell::new(None) } }
+pub fn mk_lunar_hour(y: isize, m: isize, d: usize, h: usize, mi: usize, s: usize) -> LunarHour { LunarHour { day: mk_lunar_day(y, m, d), hour: h, minute: mi, second: s, solar_time: RefCell::new(None), sixty_cycle_hour: RefCell::new(None) } }
